@@ -160,6 +160,10 @@ CURATED = [
                                                   ("bkg", [("shapesys", "ss"), ("staterror", "st"), ("shapefactor", "sf"), ("histosys", "h1")])])], "poi": "mu"}),
     ("staterror-sample-with-zero-nominal-bin", {"channels": [("c1", 2, [("sig", [("normfactor", "mu"), ("staterror", "st")]), ("bkg", [("staterror", "st"), ("normsys", "n1")])])],
                                                 "poi": "mu", "zeros": ["c1.sig.n0"]}),
+    # a staterror shared by two samples of which one (a data-driven background) declares no MC uncertainty at all: it is still
+    # scaled by gamma and its yield still counts in the denominator of the relative uncertainty
+    ("staterror-shared-with-sample-without-mc-uncertainty", {"channels": [("c1", 2, [("sig", [("normfactor", "mu"), ("staterror", "st")]), ("bkg", [("staterror", "st")])])],
+                                                             "poi": "mu", "zeros": ["c1.bkg.staterror.st.u0", "c1.bkg.staterror.st.u1"]}),
     ("mixed-constraint-widths", {"channels": [("c1", 2, [("sig", [("normfactor", "mu"), ("normsys", "n1")]), ("bkg", [("shapesys", "ss"), ("histosys", "a_h")])]),
                                                ("c2", 3, [("bkg", [("staterror", "st"), ("histosys", "z_h")])])], "poi": "mu"}),
     ("constraint-names-against-channel-order", {"channels": [("c1", 3, [("bkg", [("shapesys", "z_ss"), ("staterror", "z_st")])]),
